@@ -357,11 +357,11 @@ pub fn build_query(id: u16, flags: u16, qs: &[(Vec<u8>, u16, u16)]) -> Vec<u8> {
 pub fn gen_in_a_query(rng: &mut Rng) -> Vec<u8> {
     if rng.chance(1, 25) {
         // very many questions (short names, so that the query fits one frame)
-        let n = *rng.pick(&[20usize, 64, 100, 101, 128, 200, 255, 256, 300]);
+        let n = *rng.pick(&[20usize, 64, 100, 101, 128, 200, 255, 256, 300, 420, 512, 575]);
         let qs: Vec<(Vec<u8>, u16, u16)> = (0..n)
             .map(|k| {
                 let mut name = vec![1u8, b'a' + (k % 26) as u8];
-                if k % 3 == 0 {
+                if k % 3 == 0 && n <= 300 {
                     name.extend_from_slice(&[2, b'x', b'0' + (k % 10) as u8]);
                 }
                 name.push(0);
